@@ -1417,7 +1417,7 @@ pub fn property() -> Property {
             PropSub {
                 name: "chains",
                 strategy: chain_strategy,
-                cases: |t| t.pick(40_000, 1_000_000),
+                cases: |t| t.pick(80_000, 1_000_000),
                 run: run_chain,
                 floors: &[
                     ("accepted", 0.2),
@@ -1444,7 +1444,7 @@ pub fn property() -> Property {
             PropSub {
                 name: "tamper",
                 strategy: tamper_strategy,
-                cases: |t| t.pick(50_000, 1_200_000),
+                cases: |t| t.pick(100_000, 1_200_000),
                 run: run_tamper,
                 floors: &[
                     ("tamper-tbs-bit", 0.05),
